@@ -158,6 +158,29 @@ def _bind(call, fn, skip_self):
 
 
 # ----------------------------------------------------------------------------------------------- flatten
+def _as_expression(body):
+    """The value a helper returns as one expression, when its body is 'return E' or a chain 'if T: return A [elif ...] ... return B'
+    (docstrings and bare declarations ignored); None otherwise."""
+    body = [x for x in body if not (isinstance(x, ast.Expr) and isinstance(x.value, ast.Constant))
+            and not (isinstance(x, ast.AnnAssign) and x.value is None) and not isinstance(x, ast.Pass)]
+    if not body:
+        return None
+    st = body[0]
+    if isinstance(st, ast.Return):
+        return st.value if st.value is not None else ast.Constant(value=None)
+    if isinstance(st, ast.If):
+        a = _as_expression(st.body)
+        if a is None:
+            return None
+        b = _as_expression(st.orelse) if st.orelse else _as_expression(body[1:])
+        if b is None:
+            return None
+        if st.orelse and len(body) > 1:
+            return None
+        return ast.copy_location(ast.IfExp(test=st.test, body=a, orelse=b), st)
+    return None
+
+
 class _Flattener:
     def __init__(self, lookup, depth, keep):
         self.lookup = lookup
@@ -209,14 +232,13 @@ class _Flattener:
                 callee, skip_self, name = r
                 if name in self.keep or name in stack:
                     continue
-                body = [x for x in callee.body if not (isinstance(x, ast.Expr) and isinstance(x.value, ast.Constant))
-                        and not (isinstance(x, ast.AnnAssign) and x.value is None)]
-                if len(body) != 1 or not isinstance(body[0], ast.Return) or body[0].value is None:
+                expr = _as_expression(callee.body)
+                if expr is None:
                     continue
                 b = _bind(c, callee, skip_self)
                 if b is None or not all(_pure_arg(a) for a in b.values()):
                     continue
-                val = _Subst(dict(b)).visit(copy.deepcopy(body[0].value))
+                val = _Subst(dict(b)).visit(copy.deepcopy(expr))
                 ast.copy_location(val, c)
                 ast.fix_missing_locations(val)
                 if e is c:
@@ -267,6 +289,32 @@ class _Flattener:
             b = _bind(c, callee, skip_self)
             if b is None:
                 continue
+            if isinstance(st, ast.Return) and st.value is c:
+                # a tail call: returning from the helper is returning from the caller, so its body (returns included) replaces the statement
+                self.k += 1
+                k = self.k
+                assigned = _assigned_names(callee)
+                ren = {n: '__h%d_%s' % (k, n) for n in assigned if n not in b}
+                pre, sub = [], {}
+                for p, a in b.items():
+                    if p not in assigned and _pure_arg(a):
+                        sub[p] = a
+                    else:
+                        ren[p] = '__h%d_%s' % (k, p)
+                        pre.append(ast.copy_location(ast.Assign(targets=[ast.Name(id=ren[p], ctx=ast.Store())], value=copy.deepcopy(a), lineno=c.lineno), c))
+                body = [copy.deepcopy(x) for x in callee.body if not (isinstance(x, ast.Expr) and isinstance(x.value, ast.Constant))]
+                body = [_AttrCalls().visit(_Rename(ren).visit(_Subst(sub).visit(x))) for x in body]
+                for x in pre + body:
+                    ast.fix_missing_locations(x)
+                self.inlined.append(name)
+                return self.block(pre + body, depth - 1, stack + (name,))
+            expr = _as_expression(callee.body)
+            if expr is not None and isinstance(expr, ast.IfExp) and all(_pure_arg(a) for a in b.values()):
+                val = _Subst(dict(b)).visit(copy.deepcopy(expr))
+                ast.copy_location(val, c)
+                ast.fix_missing_locations(val)
+                self.inlined.append(name)
+                return self.simple(_replace_node(st, c, val), depth, stack)
             self.k += 1
             k = self.k
             pre, ret = self._expand(callee, b, k, c)
@@ -383,7 +431,76 @@ def flatten(fn, lookup, depth=3, keep=()):
     new.body = [_AttrCalls().visit(copy.deepcopy(s)) if any(isinstance(c, ast.Call) and dotted(c.func) in ('setattr', 'getattr') for c in ast.walk(s)) else s
                 for s in new.body]
     new._inlined = fl.inlined
+    if fl.inlined:
+        new = _tidy_names(new)
+        new._inlined = fl.inlined
     return new
+
+
+def _tidy_names(fn):
+    """After helper expansion: 'x = __hK_ret' (the only use of that result) makes the result variable x itself, and a renamed helper local
+    '__hK_name' gets its own name back when nothing else in the function is called 'name' -- the body then reads as it did before the
+    helper was extracted."""
+    import re
+    fn = copy.deepcopy(fn)
+    # 1. result variables
+    uses = {}
+    for n in ast.walk(fn):
+        if isinstance(n, ast.Name) and re.match(r'^__h\d+_ret$', n.id):
+            uses.setdefault(n.id, []).append(n)
+    ren = {}
+    drop = set()
+    for st in ast.walk(fn):
+        if isinstance(st, ast.Assign) and len(st.targets) == 1 and isinstance(st.targets[0], ast.Name) and isinstance(st.value, ast.Name) \
+                and st.value.id in uses and sum(1 for u in uses[st.value.id] if isinstance(u.ctx, ast.Load)) == 1:
+            tgt = st.targets[0].id
+            # the target must not be read between the helper's first statement and this copy: approximated by "not assigned elsewhere"
+            decl = {id(d.target) for d in ast.walk(fn) if isinstance(d, ast.AnnAssign) and d.value is None}      # bare 'cdef int x' declarations
+            others = [x for x in ast.walk(fn) if isinstance(x, ast.Name) and x.id == tgt and isinstance(x.ctx, ast.Store) and x is not st.targets[0]
+                      and id(x) not in decl]
+            if not others:
+                ren[st.value.id] = tgt
+                drop.add(id(st))
+    # the artificial initialisation '__hK_ret = None' goes with it
+    for st in ast.walk(fn):
+        if isinstance(st, ast.Assign) and len(st.targets) == 1 and isinstance(st.targets[0], ast.Name) and st.targets[0].id in ren \
+                and isinstance(st.value, ast.Constant) and st.value.value is None:
+            drop.add(id(st))
+    # 2. helper locals
+    bound = {a.arg for a in fn.args.posonlyargs + fn.args.args + fn.args.kwonlyargs}
+    for n in ast.walk(fn):
+        if isinstance(n, ast.Name) and not n.id.startswith('__h'):
+            bound.add(n.id)
+    cand = {}
+    for n in ast.walk(fn):
+        if isinstance(n, ast.Name):
+            m = re.match(r'^__h\d+_(?!ret$|once$)(\w+)$', n.id)
+            if m and n.id not in ren:
+                cand.setdefault(m.group(1), set()).add(n.id)
+    for plain, hs in cand.items():
+        if len(hs) == 1 and plain not in bound and plain not in ren.values():
+            ren[next(iter(hs))] = plain
+    if not ren:
+        return fn
+
+    def strip(stmts):
+        out = []
+        for st in stmts:
+            if id(st) in drop:
+                continue
+            for f in ('body', 'orelse', 'finalbody'):
+                b = getattr(st, f, None)
+                if isinstance(b, list) and b and isinstance(b[0], ast.stmt):
+                    setattr(st, f, strip(b) or [ast.copy_location(ast.Pass(), st)])
+            if isinstance(st, ast.Try):
+                for h in st.handlers:
+                    h.body = strip(h.body) or [ast.copy_location(ast.Pass(), st)]
+            out.append(st)
+        return out
+    fn.body = strip(fn.body)
+    fn = _Rename(ren).visit(fn)
+    ast.fix_missing_locations(fn)
+    return fn
 
 
 # ----------------------------------------------------------------------------------------------- propagate
